@@ -349,3 +349,88 @@ def w_literal(exe, domains, src):
     if domains:
         part["samples"].append({"source": src, "domain": core.b2s(domains[len(domains) // 3][:100])})
     return part
+
+
+# ---- domains of 2 GiB and more (lengths that do not fit an int / wrap an unsigned int) ----------------------------------
+HUGE = 1 << 31
+
+
+def huge_host_cases(tier):
+    """(mask, prefix, unit, reps, tail, suffix); every body is longer than 253 octets, hence no host name.  Mask bit 3 (mode 6531,
+    which hands the domain to the IDN library: minutes and tens of GiB at this size) only in the thorough tier, once."""
+    out = [(0x27, b"x@", b"a.", HUGE // 2, b"com", b""),
+           (0x27, b"user@", b"a" * 63 + b".", 1 << 26, b"com", b"")]            # 2^32 + 3 bytes: a 32-bit length sees "com"
+    if tier != "quick":
+        out += [(0x27, b"x@", b"a", HUGE + 8, b"", b""), (0x27, b"x@", b"a", 2 * HUGE, b".com", b""),
+                (0x27, b"x@", b"-", HUGE, b"", b""), (0x27, b"x@", b"1.", HUGE, b"2", b""),
+                (0x2f, b"x@", b"a.", HUGE // 2, b"com", b"")]
+    return out
+
+
+def huge_literal_cases(tier):
+    out = [(0x27, b"x@[", b"1.", HUGE // 2, b"1", b"]"), (0x27, b"x@[IPv6:", b"1:", HUGE // 2, b"1", b"]")]
+    if tier != "quick":
+        out += [(0x27, b"x@[", b"1", 2 * HUGE, b".2.3.4", b"]"), (0x27, b"x@[", b":", 2 * HUGE, b"", b"]"),
+                (0x27, b"x@[IPv6:", b"1:2:3:4:", 1 << 29, b"5:6:7:8", b"]"), (0x27, b"x@[", b"1.2.3.4]", 1 << 29, b"", b""),
+                (0x27, b"x@", b"[", HUGE, b"1.2.3.4]", b"")]
+    return out
+
+
+def huge_jobs(exe, cases, lanes=2):
+    idn = [c for c in cases if c[0] & 8]
+    rest = [c for c in cases if not c[0] & 8]
+    jobs = [(w_huge_domains, (exe, rest[i::lanes])) for i in range(lanes) if rest[i::lanes]]
+    if idn:
+        jobs.insert(0, (w_huge_domains, (exe, idn)))
+    return jobs
+
+
+def w_huge_domains(exe, cases):
+    """Worker: domains of 2 GiB and more, built by the driver's G op in an uninstrumented -O2 build, one after the other.  None of
+    them is a domain: the direct validators must say no and the high-level call must reject with a consistent record."""
+    part = new_part()
+    cnt = part["counters"]
+    for mask, pfx, unit, reps, tail, sfx in cases:
+        line = "G %x %s %d %s %s %s" % (mask, driver.hx(unit), reps, driver.hx(tail), driver.hx(sfx), driver.hx(pfx))
+        n = len(unit) * reps + len(tail)
+        wit = {"prefix": core.b2s(pfx), "unit": core.b2s(unit), "repetitions": reps, "tail": core.b2s(tail), "suffix": core.b2s(sfx), "bytes": n}
+        rec = None
+        for attempt in (0, 1):
+            try:
+                rec = driver.run_lines(exe, [line], timeout=3000)[0]
+                break
+            except driver.DriverCrash as c:
+                part["viol"].append(("huge/crash/%s" % c.signature(), wit, {"stderr": c.stderr[-1500:]}))
+                break
+            except driver.DriverHang:
+                if attempt:
+                    part["viol"].append(("huge/hang/no-termination-within-3000s-twice", wit, {"timeout_s": 3000}))
+        if not isinstance(rec, dict) or "d" not in rec:
+            if isinstance(rec, dict) and "skip" in rec:
+                cnt["huge.skipped-no-memory"] += 1
+            continue
+        d = rec["d"]
+        cnt["huge.strings"] += 1
+        cnt["huge.bytes"] += n
+        literal = pfx.endswith(b"[") or pfx.endswith(b"IPv6:")
+        bad = []
+        if not literal and d["ascii"] == 0:
+            bad.append("is_ascii_domain")
+        if "utf8" in d and not literal and d["utf8"][0] == 0:
+            bad.append("is_utf8_domain")
+        for k in ("v4", "v6", "ip"):
+            if d[k]:
+                bad.append("is_" + k)
+        cnt["huge.direct-verdicts"] += 5 + ("utf8" in d)
+        for fn in bad:
+            part["viol"].append(("huge/%s/accepts-invalid" % fn, wit, {"record": d}))
+        for mi, m in enumerate(MODES):
+            h = (rec.get("hl") or {}).get(str(mi))
+            if h is None or h[0] < 0:
+                continue
+            cnt["huge.email.%s" % m] += 1
+            if h[0] != 0 or h[3] or h[4] or h[5] or h[6] >= 0:
+                part["viol"].append(("%s/huge/email-%s" % (m, "accepted" if h[0] else "record-inconsistent"), dict(wit, mode=m),
+                                     {"ret": h[0], "errcode": h[1], "flags": h[3:6], "rc": h[6]}))
+    part["distinct"] = cnt["huge.strings"]
+    return part
